@@ -270,27 +270,49 @@ func amountRule(c *Ctx) {
 		return hasLocked && feeD && hasSpend == plusSpendable
 	}
 	n := 0
+	// classify judges one instantiation of an unlock site: amt is the undelegated amount in f's terms, chain the
+	// call sites from f down to the function containing the site. An amount that is still an opaque parameter
+	// and is not guarded at this level is judged one level up, at each caller (a helper shared by both branches).
+	var classify func(ue ir.Effect, f *ssa.Function, chain []ssa.Instruction, amt *ir.Expr, key string, depth int)
+	classify = func(ue ir.Effect, f *ssa.Function, chain []ssa.Instruction, amt *ir.Expr, key string, depth int) {
+		guarded := func(m ir.Matcher) bool { return chainGuarded(c, f, chain, ue.Site, m, 1) }
+		lockedAll := w.Expand(amt, 3).Any(func(x *ir.Expr) bool { return isStateField(x, secLocked, "Amount") })
+		switch {
+		case lockedAll:
+			n++
+			g1 := guarded(func(p ir.Pred) bool { return isHasNeg(p, true, false, f) })
+			g2 := guarded(func(p ir.Pred) bool { return isHasNeg(p, false, true, f) })
+			r.Require(g1 && g2, "A2.amount-rule", key+"|all-locked", pos(c, ue.Site), "the whole locked amount is unlocked only when it does not cover the fee but spendable + locked does", fmt.Sprintf("locked<fee guard=%v, spendable+locked>=fee guard=%v", g1, g2))
+		case amt.Op == "param":
+			if guarded(func(p ir.Pred) bool { return isHasNeg(p, false, false, f) }) {
+				n++
+				r.OK("A2.amount-rule", key+"|fee", pos(c, ue.Site), "the fee is unlocked only when locked − fee (fee denomination) is not negative")
+				return
+			}
+			ups := w.OriginsUp(f, amt, 1)
+			lifted := false
+			for ui, up := range ups {
+				if up.Top == f || depth >= 3 {
+					continue
+				}
+				lifted = true
+				classify(ue, up.Top, append(append([]ssa.Instruction{}, up.Chain...), chain...), up.E, fmt.Sprintf("%s@%d", key, ui), depth+1)
+			}
+			if !lifted {
+				n++
+				r.Bad("A2.amount-rule", key+"|fee", pos(c, ue.Site), "the fee is unlocked only when locked − fee (fee denomination) is not negative", "no such guard")
+			}
+		default:
+			n++
+			r.Bad("A2.amount-rule", key+"|amount", pos(c, ue.Site), "an unlock releases either the fee coins or the whole locked amount", "amount "+amt.String())
+		}
+	}
 	for i, ue := range unds {
 		f := ue.Fn
 		if !c.Rooted(f) {
 			continue
 		}
-		n++
-		amt := w.ExprOf(ue.Call.Common().Args[3])
-		key := fmt.Sprintf("%s|undelegate%d", fn(f), i)
-		whole := amt.Op == "param" // the fee coins handed in
-		lockedAll := w.Expand(amt, 3).Any(func(x *ir.Expr) bool { return isStateField(x, secLocked, "Amount") })
-		switch {
-		case whole:
-			g := w.Guarded(f, ue.Site, func(p ir.Pred) bool { return isHasNeg(p, false, false, f) }, 1)
-			r.Require(g, "A2.amount-rule", key+"|fee", pos(c, ue.Site), "the fee is unlocked only when locked − fee (fee denomination) is not negative", "no such guard")
-		case lockedAll:
-			g1 := w.Guarded(f, ue.Site, func(p ir.Pred) bool { return isHasNeg(p, true, false, f) }, 1)
-			g2 := w.Guarded(f, ue.Site, func(p ir.Pred) bool { return isHasNeg(p, false, true, f) }, 1)
-			r.Require(g1 && g2, "A2.amount-rule", key+"|all-locked", pos(c, ue.Site), "the whole locked amount is unlocked only when it does not cover the fee but spendable + locked does", fmt.Sprintf("locked<fee guard=%v, spendable+locked>=fee guard=%v", g1, g2))
-		default:
-			r.Bad("A2.amount-rule", key+"|amount", pos(c, ue.Site), "an unlock releases either the fee coins or the whole locked amount", "amount "+amt.String())
-		}
+		classify(ue, f, nil, w.ExprOf(ue.Call.Common().Args[3]), fmt.Sprintf("%s|undelegate%d", fn(f), i), 0)
 	}
 	r.Require(n == 2, "A2.amount-rule", "site-count", "", "there are exactly two unlock sites", fmt.Sprintf("%d", n))
 }
